@@ -40,6 +40,8 @@ def scenarios(tier):
     out.append({'name': 'calculate_grid_mask_bounds[empty mask is refused]', 'fn': 'scn_bounds_empty', 'kwargs': {}})
     for edges in ('none', 'both', 'dimension'):
         out.append({'name': f'UGrid.apply_clip_mask data rows[edges={edges}]', 'fn': 'scn_mesh_data', 'kwargs': {'edges': edges}})
+    out.append({'name': 'UGrid.apply_clip_mask data rows[edges=none, node coordinates and a face label held as xarray coordinates]', 'fn': 'scn_mesh_data',
+                'kwargs': {'edges': 'none', 'coords_as': 'coords'}})
     if tier == 'thorough':
         for fill, si in (('int_fill', 0), ('none', 0), ('none', 1), ('nan', 1)):
             for edges in ('none', 'both'):
@@ -365,10 +367,10 @@ def _mesh_mask(c, ds, has_edges):
     return mask, sels, fill
 
 
-def _valid_mesh(c, it, edges, fill, si, extra):
+def _valid_mesh(c, it, edges, fill, si, extra, coords_as='vars'):
     """a UGRID dataset whose face_node (and edge_node) tables encode abstract, valid tables"""
     from props.C10 import Table
-    ds = inputs.ugrid_mesh(c, fill=fill, start_index=si, edges=edges, extra=extra)
+    ds = inputs.ugrid_mesh(c, fill=fill, start_index=si, edges=edges, extra=extra, coords_as=coords_as)
     info = ds.info
     tables = {}
     if edges in ('both', 'edge_node'):
@@ -380,7 +382,7 @@ def _valid_mesh(c, it, edges, fill, si, extra):
     return ds, conv, tables
 
 
-def scn_mesh_data(c, edges, fill='int_fill', si=1):
+def scn_mesh_data(c, edges, fill='int_fill', si=1, coords_as='vars'):
     """UGrid.apply_clip_mask: row selection of data variables and renumbering of the connectivity tables"""
     from pyvc.lib.stdlib import OpaqueValue, PathModel
     it = new_interp(use=[])
@@ -388,7 +390,9 @@ def scn_mesh_data(c, edges, fill='int_fill', si=1):
     extra = [('temp', ('t', 'nface'), 'floatnan'), ('flipped', ('nface', 't'), 'floatnan'), ('node_val', ('nnode',), 'floatnan'), ('count', ('nface',), 'int'), ('scalar', ('t',), 'floatnan')]
     if has_edges:
         extra.append(('edge_val', ('t', 'nedge'), 'floatnan'))
-    ds, conv, tables = _valid_mesh(c, it, edges, fill, si, extra)
+    ds, conv, tables = _valid_mesh(c, it, edges, fill, si, extra, coords_as)
+    if coords_as == 'coords':
+        add_var(ds, 'face_label', ('nface',), sym_array(c, 'face_label', (ds.info['nface'],), 'int'), {'long_name': 'label'}, coord=True)
     ds.attrs['title'] = 'mesh run'
     ds._vars['temp'].attrs['units'] = 'degC'
     info = ds.info
@@ -439,6 +443,8 @@ def scn_mesh_data(c, edges, fill='int_fill', si=1):
     for d, sel in dim_sel.items():
         c.check(f'{d}: as many rows as selected elements', s_eq(osizes.get(d), sel.count))
     c.check('same data variables in the same order', list(out._iterate()) == list(ds._iterate()))
+    c.check('the coordinates of the dataset are the coordinates of the result, no more and no fewer', out._coord_names == ds._coord_names,
+            note=f'{sorted(map(str, out._coord_names))} vs {sorted(map(str, ds._coord_names))}')
     c.check('global attributes kept', out.attrs == ds.attrs)
     geometry = {'mesh', 'face_node', 'edge_node', 'node_x', 'node_y'}
     for name, (dims, arr, attrs) in before.items():
